@@ -99,9 +99,9 @@ static std::vector<Case> make_cases(const Config &cfg) {
       // blanks, a comment and no final newline (and from an empty source); then one SMTP session asks for a list of recipients
       if (std::string(d) != "smtpd") continue;
       struct R { const char *addr; int with_list, with_empty; };
-      static const R rs[] = {{"r@a.example", 250, 250}, {"r@extra.example", 250, 553}, {"r@EXTRA.EXAMPLE", 250, 553}, {"r@x.wild.example", 250, 553}, {"r@wild.example", 553, 553}, {"r@third.example", 250, 553},
-                             {"r@comment.example", 553, 553}, {"r@xextra.example", 553, 553}, {"r@sub.extra.example", 553, 553}, {"r@y.x.Wild.Example", 250, 553}, {"r", 250, 250}, {"r@a.example.", 553, 553}, {"r@other.example", 553, 553}};
-      for (int variant = 0; variant < 2; variant++) { Case c = base(d); c.name = std::string("smtpd with morercpthosts.cdb built by qmail-newmrh from ") + (variant ? "an empty source" : "a mixed source"); c.morercpt = variant ? std::string("") : std::string("Extra.Example\n.Wild.Example \t\n# comment.example\n#comment.example\nthird.example");
+      static const R rs[] = {{"r@a.example", 250, 250}, {"r@zextra.example", 250, 553}, {"r@ZEXTRA.EXAMPLE", 250, 553}, {"r@x.wild.example", 250, 553}, {"r@wild.example", 553, 553}, {"r@third.example", 250, 553},
+                             {"r@comment.example", 553, 553}, {"r@xzextra.example", 553, 553}, {"r@sub.zextra.example", 553, 553}, {"r@y.x.Wild.Example", 250, 553}, {"r", 250, 250}, {"r@a.example.", 553, 553}, {"r@other.example", 553, 553}};
+      for (int variant = 0; variant < 2; variant++) { Case c = base(d); c.name = std::string("smtpd with morercpthosts.cdb built by qmail-newmrh from ") + (variant ? "an empty source" : "a mixed source"); c.morercpt = variant ? std::string("") : std::string("ZExtra.Example\n.Wild.Example \t\n# comment.example\n#comment.example\nthird.example");
         c.input = "HELO x\r\nMAIL FROM:<s@src.example>\r\n"; for (auto &r : rs) { c.input += std::string("RCPT TO:<") + r.addr + ">\r\n"; c.want_codes.push_back(variant ? r.with_empty : r.with_list); } c.input += "QUIT\r\n"; c.has_morercpt = true; v.push_back(c); }
     } else if (fam == "multi") {
       // several messages on one QMTP connection with a size limit: the limit applies to each message separately
